@@ -572,7 +572,7 @@ func init() {
 					}
 					st := vrt.Explore(cfg, body)
 					res.Execs, res.Points, res.Signatures, res.Outcomes = st.Execs, st.Points, st.Signatures, len(st.Outcomes)
-					res.BoundCompleted, res.Exhaustive = st.BoundCompleted, st.Exhaustive
+					res.BoundCompleted, res.Exhaustive, res.CapHit = st.BoundCompleted, st.Exhaustive, st.CapHit
 					res.Violations, res.HarnessErrors = st.Violations, st.HarnessErrors
 					for k := range st.Outcomes {
 						if len(res.OutcomeSample) < 2 {
